@@ -14,7 +14,8 @@ package main
 //           without initialiser must be definitely assigned before the call on every branch), calls of
 //           same-package functions returning a tag (all return statements), parameters (through callers);
 //   values  each label VALUE is classified: compile-time constant (valid UTF-8), strconv.Format*/Itoa
-//           (ASCII), or dynamic (run-time data; the label is then listed in `dynamicLabels` with the source
+//           (ASCII), sanitised (`strings.ToValidUTF8(x, r)`: any run-time data, valid UTF-8 by construction;
+//           the label is listed in `sanitisedLabels`), or dynamic (run-time data; the label is then listed in `dynamicLabels` with the source
 //           expression in `dynamicValues`) — client_golang panics on a label value that is not valid UTF-8;
 //   spreads `xs...`: slice literals, local slices built by straight-line `append`s at the top level of the
 //           function body, struct fields (every composite literal of the owning struct type and every
@@ -456,7 +457,8 @@ func (x *mx) topStr(p *pkgInfo, name string, env menv) ([]string, *resErr) {
 
 // A resolved tag is encoded as name + "\x00" + value class, where the value class is "const" (a
 // compile-time constant string that is valid UTF-8), "fmt" (strconv.FormatBool/Itoa/FormatInt/FormatUint:
-// ASCII by construction) or "dyn:<source text>" (anything else: data only known at run time).
+// ASCII by construction), "san" (strings.ToValidUTF8(<anything>, …): run-time data, but valid UTF-8 by
+// construction — listed in `sanitisedLabels`) or "dyn:<source text>" (anything else: data only known at run time).
 func withVal(names []string, vc string) []string {
 	out := make([]string, len(names))
 	for i, n := range names {
@@ -490,7 +492,7 @@ func (x *mx) valueClass(e ast.Expr, env menv) (string, *resErr) {
 				}
 			}
 			if id, ok := se.X.(*ast.Ident); ok && id.Name == "strings" && id.Obj == nil && se.Sel.Name == "ToValidUTF8" {
-				return "fmt", nil // valid UTF-8 by construction
+				return "san", nil // sanitised: valid UTF-8 by construction, whatever the argument is
 			}
 		}
 	}
@@ -1162,6 +1164,7 @@ type metricSite struct {
 	labels []string
 	dyn    []string // label names whose value is only known at run time
 	dynSrc []string // "label=<source expression>"
+	san    []string // label names whose run-time value is passed through strings.ToValidUTF8
 	spread bool
 	via    []string
 }
@@ -1224,10 +1227,10 @@ func genMetricSites() {
 				variants, err := x.evalSite(c, env)
 				if err == nil {
 					for _, v := range variants {
-						key := fmt.Sprintf("%s|%s|%s|%s|%s", where, kind, v.name, strings.Join(v.labels, ","), strings.Join(v.dynSrc, ","))
+						key := fmt.Sprintf("%s|%s|%s|%s|%s", where, kind, v.name, strings.Join(v.labels, ","), strings.Join(v.dynSrc, ",")+"|"+strings.Join(v.san, ","))
 						s := index[key]
 						if s == nil {
-							s = &metricSite{file: fi.file.rel, line: pos.Line, kind: kind, name: v.name, labels: v.labels, dyn: v.dyn, dynSrc: v.dynSrc, spread: c.Ellipsis.IsValid()}
+							s = &metricSite{file: fi.file.rel, line: pos.Line, kind: kind, name: v.name, labels: v.labels, dyn: v.dyn, dynSrc: v.dynSrc, san: v.san, spread: c.Ellipsis.IsValid()}
 							index[key] = s
 							sites = append(sites, s)
 						}
@@ -1353,8 +1356,8 @@ func genMetricSites() {
 		if i == len(sites)-1 {
 			comma = ""
 		}
-		fmt.Fprintf(&sb, "  { file := %s, line := %d, kind := .%s, name := %s, labelNames := %s, dynamicLabels := %s, spreads := %v, via := %s, dynamicValues := %s }%s\n",
-			leanLit(s.file), s.line, s.kind, leanName(s.name), leanNameList(s.labels), leanNameList(s.dyn), s.spread, leanLit(via), leanLit(strings.Join(s.dynSrc, "; ")), comma)
+		fmt.Fprintf(&sb, "  { file := %s, line := %d, kind := .%s, name := %s, labelNames := %s, dynamicLabels := %s, sanitisedLabels := %s, spreads := %v, via := %s, dynamicValues := %s }%s\n",
+			leanLit(s.file), s.line, s.kind, leanName(s.name), leanNameList(s.labels), leanNameList(s.dyn), leanNameList(s.san), s.spread, leanLit(via), leanLit(strings.Join(s.dynSrc, "; ")), comma)
 	}
 	sb.WriteString("]\n\n")
 	gl := make([]string, len(globals))
@@ -1373,6 +1376,7 @@ type siteVariant struct {
 	labels []string
 	dyn    []string
 	dynSrc []string
+	san    []string
 }
 
 // evalSite evaluates one Emit* call under one caller context: all (name, sorted label list) variants.
@@ -1410,6 +1414,9 @@ func (x *mx) evalSite(c *ast.CallExpr, env menv) ([]siteVariant, *resErr) {
 				for _, e := range enc {
 					ln, vc := splitTag(e)
 					v.labels = append(v.labels, ln)
+					if vc == "san" {
+						v.san = append(v.san, ln)
+					}
 					if strings.HasPrefix(vc, "dyn:") {
 						v.dyn = append(v.dyn, ln)
 						v.dynSrc = append(v.dynSrc, ln+"="+strings.TrimPrefix(vc, "dyn:"))
